@@ -14,6 +14,7 @@ import (
 	"strings"
 	"testing"
 
+	"github.com/Dash-Industry-Forum/livesim2/cmd/livesim2/app"
 	"github.com/Eyevinn/mp4ff/bits"
 	"github.com/Eyevinn/mp4ff/mp4"
 	"pgregory.net/rapid"
@@ -432,7 +433,7 @@ func TestC10PreEncrypted(t *testing.T) {
   </Period>
 </MPD>
 `))
-		srv, err := ls.New(root)
+		srv, err := ls.New(root, func(c *app.ServerConfig) { c.DrmCfgFile = ls.RepoRoot() + "/pkg/drm/testdata/drm_config_test.json" })
 		if err != nil {
 			t.Fatalf("HARNESS: pre-encrypted asset does not load: %v", err)
 		}
@@ -440,7 +441,7 @@ func TestC10PreEncrypted(t *testing.T) {
 		if plain.Code != 200 {
 			t.Fatalf("HARNESS: pre-encrypted asset is not served without DRM: %v", plain)
 		}
-		for _, drm := range []string{"eccp_cenc", "eccp_cbcs"} {
+		for _, drm := range []string{"eccp_cenc", "eccp_cbcs", "drm_EZDRM-1-key-cbcs-test", "drm_EZDRM-2-keys-cbcs-test"} {
 			for _, file := range []string{"Manifest.mpd", "V300/5.m4s"} {
 				for _, typ := range [][]string{nil, {"segtimeline_1"}} {
 					u := ls.URL(append(append([]string{}, typ...), drm), "preenc", strings.Replace(file, "5.m4s", map[bool]string{true: "900000.m4s", false: "5.m4s"}[len(typ) > 0], 1), 13000)
